@@ -126,36 +126,27 @@ theorem C08_cmp (h : C08_Supported w n) (ha : Canon w n a) (hb : Canon w n b) :
 
 /-! ### shifts -/
 
-/-- left shift by any count k ≥ 0 (block shift + bit shift + MSU mask): `a · 2^k` wrapped -/
-theorem C08_shl (h : C08_Supported w n) (ha : Canon w n a) (k : Int) (hk : 0 ≤ k) :
+/-- left shift (block shift + bit shift + MSU mask) with a signed count, every count: `a · 2^k` wrapped for k ≥ 0, and
+    for a negative count the arithmetic right shift by −k -/
+theorem C08_shl (h : C08_Supported w n) (ha : Canon w n a) (k : Int) :
     Canon w n (Integer.shl w n a k) ∧ toNat w (Integer.shl w n a k) = IntegerSpec.shl n (toNat w a) k :=
-  Integer.shl_spec h.1 h.2.1 ha k (Or.inl hk)
+  Integer.shl_spec h.1 h.2.1 ha k
 
 example : toNat 8 (Integer.shl 8 17 [0x81, 0x00, 0x01] 9) = IntegerSpec.shl 17 0x10081 9 := by decide
 
-/-- the full statement for right shifts (false, see the counterexample) -/
-def C08_shr_full : Prop := ∀ (w n : Nat) (a : List Nat) (k : Int), C08_Supported w n → Canon w n a →
-    toNat w (Integer.shr w n a k) = IntegerSpec.shr n (toNat w a) k
-
-/-- arithmetic right shift: floor division by 2^k with sign extension, for every count below nbits, and for any
-    count when the value is non-negative.  What is excluded is exactly defect D8. -/
-theorem C08_shr_partial (h : C08_Supported w n) (ha : Canon w n a) (k : Int) (hg : k < n ∨ 0 ≤ toInt w n a) :
-    Canon w n (Integer.shr w n a k) ∧ toNat w (Integer.shr w n a k) = IntegerSpec.shr n (toNat w a) k :=
-  Integer.shr_spec h.1 h.2.1 ha k (Or.inr hg)
-
-/-- a shift with a negative count goes the other way under the same conditions -/
-theorem C08_shl_negative_count_partial (h : C08_Supported w n) (ha : Canon w n a) (k : Int) (hg : -k < n ∨ 0 ≤ toInt w n a) :
-    Canon w n (Integer.shl w n a k) ∧ toNat w (Integer.shl w n a k) = IntegerSpec.shl n (toNat w a) k :=
-  Integer.shl_spec h.1 h.2.1 ha k (Or.inr hg)
+/-- arithmetic right shift, every count (in particular the whole range [−nbits−1, nbits+1] of the property): floor division
+    by 2^k with sign extension; from nbits on the result is the sign fill, 0 or −1 (repaired in 11c577e: the code used
+    to return 0 for negative values too); a negative count shifts left -/
+theorem C08_shr (h : C08_Supported w n) (ha : Canon w n a) (k : Int) :
+    Canon w n (Integer.shr w n a k) ∧ toNat w (Integer.shr w n a k) = IntegerSpec.shr n (toNat w a) k ∧
+    toInt w n (Integer.shr w n a k) = toSigned n (IntegerSpec.shr n (toNat w a) k) := by
+  obtain ⟨hc, hv⟩ := Integer.shr_spec h.1 h.2.1 ha k
+  exact ⟨hc, hv, by unfold toInt; rw [hv]⟩
 
 example : toNat 8 (Integer.shr 8 17 [0x00, 0x80, 0x01] 9) = IntegerSpec.shr 17 0x18000 9 := by decide
-
-/-- D8: `integer<8>(−128) >> 8` is 0 in the code (`setzero()`), the arithmetic shift gives −1 -/
-theorem C08_shr_counterexample : ¬ C08_shr_full := by
-  intro hfull
-  have := hfull 8 8 [0x80] 8 ⟨by decide, by decide, Or.inl (by decide)⟩ (by decide)
-  revert this
-  decide
+-- counts at and beyond nbits on a negative value: −128 >> 8 = −1, −128 >> 9 = −1, and 64 >> 8 = 0   (integer<8>)
+example : toNat 8 (Integer.shr 8 8 [0x80] 8) = 0xff ∧ toNat 8 (Integer.shr 8 8 [0x80] 9) = 0xff ∧ toNat 8 (Integer.shr 8 8 [0x40] 8) = 0 := by decide
+example : toNat 8 (Integer.shr 8 8 [0x80] 8) = IntegerSpec.shr 8 0x80 8 := by decide
 
 /-! ### conversions -/
 
